@@ -41,7 +41,7 @@ const (
 var (
 	avoidF4  = false // repaired in /repo (fix: 4748d28): the shape is generated and must pass
 	avoidF5  = false // repaired in /repo (fix: b826759)
-	avoidF7  = false // repaired in /repo (fix: 95fdb5f)
+	avoidF7  = false // repaired in /repo (fix: 29dbd78)
 	avoidF8  = true
 	avoidF9  = true
 	avoidF12 = true
